@@ -95,4 +95,6 @@ def run(ctx):
     ctx.replay_vectors("MC_Codec", "MC_Codec.cfg", perform, "grid", classify, consts='CONSTANT Area = "cds"',
                        need_actions=("PickVector",))
     ctx.validate_events(events(ctx), "calls", classify, shard=4000)
+    from .. import repotests
+    repotests.codec_stage(ctx, "C14")       # the calls the repository's own tests make, judged by the specification
     ctx.exhaustive = False
